@@ -902,22 +902,79 @@ def translate_slice(fn, var, gname, occurrence=0, structs=None, known_funcs=None
     return out, info
 
 
-def translate_block(stmts, gname, params, outputs, fname="block", structs=None, known_funcs=None, tables=None):
+def translate_block(stmts, gname, params, outputs, fname="block", structs=None, known_funcs=None, tables=None,
+                    free_params=False, jumps_end=False, init=None):
     """Translate a statement list as a function of the given locations (params: list of location keys,
     all of type Z) returning the tuple of the final values of `outputs`."""
     T = Translator(structs, known_funcs, tables)
     T.fname = fname
     T.gname = gname
     T.const_index_locations = True
+    T.free_as_params = free_params
     env = dict((p, p) for p in params)
+    for k_, v_ in (init or {}).items():
+        env[k_] = v_
     T.params = list(params)
-    K = dict(fin=lambda e2: T.tuple_of([e2[o] for o in outputs]),
-             ret=lambda e, e2: (_ for _ in ()).throw(Unsupported("return inside block")), brk=None, cont=None)
+    fin = lambda e2: T.tuple_of([T.lookup(e2, o) for o in outputs])
+    K = dict(fin=fin, ret=lambda e, e2: (_ for _ in ()).throw(Unsupported("return inside block")),
+             brk=(fin if jumps_end else None), cont=(fin if jumps_end else None))
     text = T.stmts(list(stmts), env, K)
+    params = list(T.params)
     plist = " ".join("(%s : Z)" % n for n in params)
     out = "".join(a for _, a in T.aux)
     out += "Definition %s %s :=\n%s.\n" % (gname, plist, text)
     return out, dict(name=gname, params=list(params), outputs=list(outputs), fuel=False)
+
+
+def node_offsets(n):
+    """(begin, end) file offsets of an AST node, following macro expansions to where they are written"""
+    r = n.get("range", {})
+    def off(x):
+        if "expansionLoc" in x:
+            x = x["expansionLoc"]
+        return x.get("offset")
+    b, e = off(r.get("begin", {})), off(r.get("end", {}))
+    return b, e
+
+
+def select_between(fn, src_text, begin_re, end_re, occurrence=0):
+    """Maximal statements of function `fn` that lie between the `occurrence`-th match of begin_re inside the
+    function (inclusive, from the start of its line) and the next match of end_re (exclusive, up to the start of
+    its line).  Anchors are regular expressions on the SOURCE TEXT, so that the slice follows the code when
+    lines move.  Returns the statement list in source order."""
+    fb, fe = node_offsets(fn)
+    if fb is None or fe is None:
+        raise Unsupported("no source range for function " + fn.get("name", "?"))
+    text = src_text
+    ms = list(re.finditer(begin_re, text[fb:fe], re.M))
+    if occurrence >= len(ms):
+        raise Unsupported("slice anchor %r: occurrence %d not found in %s" % (begin_re, occurrence, fn.get("name")))
+    a = fb + ms[occurrence].start()
+    a = text.rfind("\n", 0, a) + 1
+    me = re.search(end_re, text[fb + ms[occurrence].end():fe], re.M)
+    if not me:
+        raise Unsupported("slice end anchor %r not found after %r in %s" % (end_re, begin_re, fn.get("name")))
+    b = fb + ms[occurrence].end() + me.start()
+    b = text.rfind("\n", 0, b) + 1
+    out = []
+
+    def walk(n):
+        for c in n.get("inner", []):
+            if not isinstance(c, dict) or "kind" not in c:
+                continue
+            cb, ce = node_offsets(c)
+            if cb is None or ce is None:
+                continue
+            if cb >= a and ce < b:
+                if c.get("kind") not in ("ParmVarDecl",):
+                    out.append(c)
+            elif ce >= a and cb < b and c.get("kind") in ("CompoundStmt", "IfStmt", "ForStmt", "WhileStmt", "DoStmt", "SwitchStmt", "CaseStmt", "DefaultStmt", "LabelStmt"):
+                walk(c)
+    body = [c for c in fn["inner"] if c.get("kind") == "CompoundStmt"][0]
+    walk(body)
+    if not out:
+        raise Unsupported("slice %r .. %r of %s selects no statement" % (begin_re, end_re, fn.get("name")))
+    return out
 
 
 def translate_table(var, gname):
